@@ -30,12 +30,12 @@ def run(ck):
         ck.mc_must_fail("MCThreads", "C18_asfound_%s.cfg" % m, workers=4, timeout=600)
     exe = vlib.build("thr", ["vhthr.c", "vhrt.c"], "vhthr", repo_cflags=SEEDDEF, objtag="-c18")
     tsan = vlib.build("tsan", ["vhthr.c", "vhrt.c"], "vhthr", repo_cflags=SEEDDEF, objtag="-c18")
-    m = 1000000 if thorough else 200000
+    m = 4000000 if thorough else 200000
     jobs = []
     for t in (2, 4, 8, 16):
         for k in (1, 4):
             jobs.append((exe, ["counter", t, m, k], {}))
-    for i in range(200 if thorough else 60):
+    for i in range(600 if thorough else 60):
         jobs.append((exe, ["seed", 2 + (i % 4) * 4 if i % 4 else 8], {}))
     for t in (4, 16):
         jobs.append((exe, ["disjoint", t, 40000 if thorough else 10000], {}))
